@@ -1,1 +1,209 @@
-From V Require Export C14_Model.
+(* C14_Props.v — the property theorems of C14 and nothing else.
+   Each is closed by `exact <lemma>` and followed by Print Assumptions.
+   `decompress` stands for the negotiated decompressor run to completion (an oracle: C20's domain);
+   every theorem holds for every such function. *)
+From Coq Require Import Lia.
+From V Require Import C14_Spec C14_Proofs.
+Open Scope N_scope.
+
+(* Chunking never matters (raw dataTracer + builder): for EVERY configuration, EVERY list of chunks
+   (empty and one-byte chunks included) of EVERY byte string - well-formed, truncated anywhere or
+   garbage - the delivered events are the numbered events of the one-shot declarative parse of the
+   concatenation, followed by one body-end event. *)
+Theorem chunk_invariant : forall decompress c chunks,
+  raw_events decompress c chunks = expected_events decompress c (concat chunks) ENil.
+Proof. exact raw_events_proof. Qed.
+Print Assumptions chunk_invariant.
+
+(* the same through tracingReader: any reads without error, then a read that returns (last, err)
+   with err = EOF or another error, then any number of Close calls *)
+Theorem reader_chunk_invariant : forall decompress c chunks last e fl,
+  e <> IoNone ->
+  reader_events decompress c (reads chunks ++ [RRead last e] ++ closes fl) =
+  expected_events decompress c (concat (chunks ++ [last])) (errk_of e).
+Proof. exact reader_chunks_proof. Qed.
+Print Assumptions reader_chunk_invariant.
+
+(* ... or closed before the end was seen: the bytes read so far, then the body-end with the close error *)
+Theorem reader_closed_early : forall decompress c chunks f fl,
+  reader_events decompress c (reads chunks ++ closes (f :: fl)) =
+  expected_events decompress c (concat chunks) (if f then EScripted else EOther).
+Proof. exact reader_close_proof. Qed.
+Print Assumptions reader_closed_early.
+
+(* through tracingResponseWriter: what is traced is what the inner writer ACCEPTED (data[:n]) *)
+Theorem writer_chunk_invariant : forall decompress c l,
+  writer_events decompress c (writes l) = expected_events decompress c (concat (accepted l)) ENil.
+Proof. exact writer_ok_proof. Qed.
+Print Assumptions writer_chunk_invariant.
+
+Theorem writer_failed_write : forall decompress c l data n,
+  writer_events decompress c (writes l ++ [WWrite data n true]) =
+  expected_events decompress c (concat (accepted l ++ [firstn n data])) EScripted.
+Proof. exact writer_fail_proof. Qed.
+Print Assumptions writer_failed_write.
+
+(* pass-through: for ANY script of calls the caller gets exactly the inner bytes / counts / errors *)
+Theorem reader_transparent : forall decompress c ops s,
+  snd (reader_run decompress c s ops) = map rres_of ops.
+Proof. exact reader_transparent_proof. Qed.
+Print Assumptions reader_transparent.
+
+Theorem writer_transparent : forall decompress c ops s,
+  snd (writer_run decompress c s ops) = map wres_of ops.
+Proof. exact writer_transparent_proof. Qed.
+Print Assumptions writer_transparent.
+
+(* a single body-end event for ANY script (reads after the end, repeated Close, writes after a
+   failed write, ...): exactly one once anything ended the body, none before *)
+Theorem reader_single_body_end : forall decompress c ops,
+  count_end (reader_events decompress c ops) = if existsb finishing ops then 1%nat else O.
+Proof. exact reader_single_end_proof. Qed.
+Print Assumptions reader_single_body_end.
+
+Theorem writer_single_body_end : forall decompress c ops,
+  count_end (writer_events decompress c ops) = 1%nat.
+Proof. exact writer_single_end_proof. Qed.
+Print Assumptions writer_single_body_end.
+
+(* data events are numbered 0,1,2,... in order, for every body *)
+Theorem consecutive_numbering : forall decompress c chunks,
+  data_indices (raw_events decompress c chunks) =
+  seqN 0 (count_data (parse_body decompress c (concat chunks))).
+Proof. exact consecutive_proof. Qed.
+Print Assumptions consecutive_numbering.
+
+(* one data event per enveloped message with its exact flags and declared length *)
+Theorem one_per_message : forall decompress c, c_stream c = true -> forall msgs chunks,
+  Forall fits msgs -> concat chunks = encode_all msgs ->
+  raw_events decompress c chunks =
+  number (c_req c) 0 (flat_map (msg_events decompress c) msgs) ++ [EvEnd (c_req c) ENil].
+Proof. exact one_per_message_proof. Qed.
+Print Assumptions one_per_message.
+
+(* a body cut after j bytes of a message: the complete messages, then the partial event with the
+   count actually seen (see partial_events for the cut exactly after a prefix) *)
+Theorem truncation : forall decompress c, c_stream c = true -> forall msgs fl p j chunks,
+  Forall fits msgs -> fits (fl, p) -> (0 < j < length (encode fl p))%nat ->
+  concat chunks = encode_all msgs ++ firstn j (encode fl p) ->
+  raw_events decompress c chunks =
+  number (c_req c) 0 (flat_map (msg_events decompress c) msgs ++ partial_events fl (blen p) j)
+  ++ [EvEnd (c_req c) ENil].
+Proof. exact truncation_proof. Qed.
+Print Assumptions truncation.
+
+(* end-stream content: shown as it is when the compressed flag is clear, whatever was negotiated *)
+Theorem end_stream_uncompressed : forall decompress c, c_stream c = true -> forall msgs fl p chunks,
+  c_req c = false -> Forall fits msgs -> fits (fl, p) -> p <> [] ->
+  is_end_stream fl = true -> is_compressed fl = false ->
+  concat chunks = encode_all msgs ++ encode fl p ->
+  raw_events decompress c chunks =
+  number false 0 (flat_map (msg_events decompress c) msgs) ++
+  [EvData false (N.of_nat (length msgs)) (Some (mk_env fl (blen p))) (blen p); EvEos p; EvEnd false ENil].
+Proof. exact end_stream_uncompressed_proof. Qed.
+Print Assumptions end_stream_uncompressed.
+
+(* ... and decompressed when it is set *)
+Theorem end_stream_compressed : forall decompress c, c_stream c = true -> forall msgs fl p out chunks,
+  c_req c = false -> c_dec c = true -> Forall fits msgs -> fits (fl, p) -> p <> [] ->
+  is_end_stream fl = true -> is_compressed fl = true ->
+  decompress p = Some out -> out <> [] ->
+  concat chunks = encode_all msgs ++ encode fl p ->
+  raw_events decompress c chunks =
+  number false 0 (flat_map (msg_events decompress c) msgs) ++
+  [EvData false (N.of_nat (length msgs)) (Some (mk_env fl (blen p))) (blen p); EvEos out; EvEnd false ENil].
+Proof. exact end_stream_compressed_proof. Qed.
+Print Assumptions end_stream_compressed.
+
+(* a flagged payload the decompressor refuses: the data event, no content, the body-end *)
+Theorem end_stream_undecodable : forall decompress c, c_stream c = true -> forall msgs fl p chunks,
+  c_req c = false -> c_dec c = true -> Forall fits msgs -> fits (fl, p) ->
+  is_end_stream fl = true -> is_compressed fl = true -> decompress p = None ->
+  concat chunks = encode_all msgs ++ encode fl p ->
+  raw_events decompress c chunks =
+  number false 0 (flat_map (msg_events decompress c) msgs) ++
+  [EvData false (N.of_nat (length msgs)) (Some (mk_env fl (blen p))) (blen p); EvEnd false ENil].
+Proof. exact end_stream_undecodable_proof. Qed.
+Print Assumptions end_stream_undecodable.
+
+(* without a streaming content-type: one data event with the total byte count, no envelope *)
+Theorem non_stream : forall decompress c chunks,
+  c_stream c = false ->
+  raw_events decompress c chunks =
+  match concat chunks with
+  | [] => [EvEnd (c_req c) ENil]
+  | _ :: _ => [EvData (c_req c) 0 None (blen (concat chunks)); EvEnd (c_req c) ENil]
+  end.
+Proof. exact non_stream_proof. Qed.
+Print Assumptions non_stream.
+
+(* ---- non-vacuity: the hypotheses are inhabited, both sides of the flag rule occur ---- *)
+Definition toy_dec (b : bytes) : option bytes := match b with 90 :: r => Some r | _ => None end.
+Definition resp : cfg := mk_cfg false true true.
+Definition reqc : cfg := mk_cfg true true true.
+
+(* byte by byte, with empty chunks in between: two messages, the second an uncompressed end-stream *)
+Example ex_bytewise :
+  raw_events toy_dec resp (flat_map (fun b => [[]; [b]]) (encode 0 [7; 8] ++ encode 2 [123; 125])) =
+  [EvData false 0 (Some (mk_env 0 2)) 2; EvData false 1 (Some (mk_env 2 2)) 2; EvEos [123; 125]; EvEnd false ENil].
+Proof. vm_compute. reflexivity. Qed.
+Example ex_one_chunk_same :
+  raw_events toy_dec resp [encode 0 [7; 8] ++ encode 2 [123; 125]] =
+  raw_events toy_dec resp (flat_map (fun b => [[]; [b]]) (encode 0 [7; 8] ++ encode 2 [123; 125])).
+Proof. vm_compute. reflexivity. Qed.
+(* compressed flag set: decompressed; same bytes with the flag clear: as they are; refused: nothing *)
+Example ex_flag_set :
+  raw_events toy_dec resp [encode 3 [90; 123; 125]] =
+  [EvData false 0 (Some (mk_env 3 3)) 3; EvEos [123; 125]; EvEnd false ENil].
+Proof. vm_compute. reflexivity. Qed.
+Example ex_flag_clear :
+  raw_events toy_dec resp [encode 2 [90; 123; 125]] =
+  [EvData false 0 (Some (mk_env 2 3)) 3; EvEos [90; 123; 125]; EvEnd false ENil].
+Proof. vm_compute. reflexivity. Qed.
+Example ex_refused :
+  raw_events toy_dec resp [encode 129 [1; 2]] = [EvData false 0 (Some (mk_env 129 2)) 2; EvEnd false ENil].
+Proof. vm_compute. reflexivity. Qed.
+(* requests never carry end-stream content *)
+Example ex_request_side :
+  raw_events toy_dec reqc [encode 2 [123; 125]] = [EvData true 0 (Some (mk_env 2 2)) 2; EvEnd true ENil].
+Proof. vm_compute. reflexivity. Qed.
+(* cuts: inside a prefix, exactly after it (pinned: no partial event), inside the payload *)
+Example ex_cut_prefix :
+  raw_events toy_dec resp [[0; 0]; [0]] = [EvData false 0 None 3; EvEnd false ENil].
+Proof. vm_compute. reflexivity. Qed.
+Example ex_cut_after_prefix :
+  raw_events toy_dec resp [[0; 0; 0]; [0; 9]] = [EvEnd false ENil].
+Proof. vm_compute. reflexivity. Qed.
+Example ex_cut_payload :
+  raw_events toy_dec resp [[0; 0; 0]; [0; 9; 1]; [2]] = [EvData false 0 (Some (mk_env 0 9)) 2; EvEnd false ENil].
+Proof. vm_compute. reflexivity. Qed.
+(* zero-length messages each get their event *)
+Example ex_zero_length :
+  raw_events toy_dec reqc [encode 0 [] ++ encode 1 [] ++ [0]] =
+  [EvData true 0 (Some (mk_env 0 0)) 0; EvData true 1 (Some (mk_env 1 0)) 0; EvData true 2 None 1; EvEnd true ENil].
+Proof. vm_compute. reflexivity. Qed.
+(* the reader: data together with EOF, then Close twice - one body-end; a request body whose inner
+   reader keeps returning data after EOF still has ONE body-end (later data events follow it) *)
+Example ex_reader :
+  reader_events toy_dec resp [RRead [0; 0; 0] IoNone; RRead [0; 1; 5] IoEOF; RClose false; RClose true] =
+  [EvData false 0 (Some (mk_env 0 1)) 1; EvEnd false ENil].
+Proof. vm_compute. reflexivity. Qed.
+Example ex_reader_after_end :
+  reader_events toy_dec reqc [RRead [] IoEOF; RRead (encode 0 [1]) IoFail] =
+  [EvEnd true ENil; EvData true 0 (Some (mk_env 0 1)) 1].
+Proof. vm_compute. reflexivity. Qed.
+(* the writer traces only what was accepted *)
+Example ex_short_write :
+  writer_events toy_dec resp [WWrite (encode 0 [1; 2; 3]) 7 true; WWrite [9] 1 false] =
+  [EvData false 0 (Some (mk_env 0 3)) 2; EvEnd false EScripted].
+Proof. vm_compute. reflexivity. Qed.
+Example ex_fits : Forall fits [(0, [1; 2]); (2, [])].
+Proof. repeat constructor; unfold fits; cbn; lia. Qed.
+(* header detection *)
+Example ex_headers :
+  props_of_headers (bs "application/connect+json") [] (bs "GZIP") [] = (true, DNamed) /\
+  props_of_headers (bs "application/grpc-web+proto") [] [] [] = (true, DIdentity) /\
+  props_of_headers (bs "application/grpc") [] [] (bs "lz4") = (true, DBroken) /\
+  props_of_headers (bs "application/connect+json") (bs "gzip") [] [] = (false, DBroken) /\
+  props_of_headers (bs "application/json") [] [] [] = (false, DBroken).
+Proof. vm_compute. repeat split; reflexivity. Qed.
